@@ -95,7 +95,7 @@ def _c16_hybrid(a, col):
 
 _C08_PROG = {"profile": "levels", "oracles": [_o2("judge_c08")], "opts": {"approx_ops": False, "near_basis": True, "lifecycle": 0.15, "near_pure": 0.3, "near_pure_lo": -7.5}}
 _C10_PROG = {"profile": "resize", "oracles": [_o2("judge_resize"), _o2("judge_truncation")],
-             "opts": {"env_max": 2, "cus_max": 1, "weak_bs": 0.3, "weak_prefix": 0.15, "fock_types": ["Displace", "Squeeze", "Creation", "Annihilation", "PhaseShift", "Custom"]}}
+             "opts": {"env_max": 2, "cus_max": 1, "weak_bs": 0.3, "weak_prefix": 0.15, "same_alpha": 0.1, "fock_types": ["Displace", "Squeeze", "Creation", "Annihilation", "PhaseShift", "Custom"]}}
 _C11_PROG = {"profile": "optics", "oracles": [_o2("judge_c11")],
              "opts": {"approx_ops": False, "env_min": 2, "env_max": 4, "cus_max": 0, "p_lone": 0.0, "weak_bs": 0.1, "weak_prefix": 0.08,
                       "comp_types": ["NonPolarizingBeamSplitter", "NonPolarizingBeamSplitter", "Expression"],
